@@ -451,6 +451,11 @@ class Machine:
                 if op:
                     do(op)
         order = list(self.ref.all_spaces())
+        if self.cfg.get("p_cellsless"):
+            # some spaces hold references only (a namespace nobody reads stays stale much longer there)
+            order = [s for s in order if rng.random() >= self.cfg["p_cellsless"]]
+        if self.cfg.get("cellsless_paths"):
+            order = [s for s in order if s.path() not in self.cfg["cellsless_paths"]]
         for rnd in range(n_cells):
             for s in order:
                 if rng.random() < 0.75:
